@@ -14,10 +14,11 @@ RULE = ("A finite grammar of malformed arguments is enumerated COMPLETELY at eve
         "rating, []}; player (i,j) in {None, int, float, str, (mu,sigma) tuple, dict, a rating of each of the four other "
         "models, the rating class, a nested list}; ranks/scores in {tuple, str, non-zero int/float, dict, set, range, "
         "generator, True, length n-1, length n+1, element i in {None, str, list, tuple, complex, a rating}}; both "
-        "selectors given. Applied to rate (all) and the three predict operations (teams part). Oracle: the call raises "
+        "selectors given; plus containers that were ACCEPTED once and are then edited in place to be malformed and passed "
+        "again. Applied to rate (all) and the three predict operations (teams part). Oracle: the call raises "
         "TypeError or ValueError, and a frame monitor finds every rating reachable from the arguments and the model's "
         "__dict__ unchanged afterwards. A well-formed acceptance set (int, float, bool, 0, negative, -0.0, huge ints, "
-        "all-equal, as ranks and scores) must be accepted. Every variant is non-trivial; distinct = (base game, "
+        "all-equal, as ranks and scores; the other selector spelled None or []) must be accepted. Every variant is non-trivial; distinct = (base game, "
         "operation, variant, position).")
 ASSUMPTIONS = ["falsy non-list selectors (0, '', (), {}, False, []) are treated by the library as omitted: outside "
                "'given (non-empty)'", "Decimal/Fraction elements and NaN are outside both sets"]
@@ -194,6 +195,29 @@ def probe_base(ctx, payload):
                 o = observe(model, op, bad_teams)
             _judge_rejected(ctx, payload, label, op, o, model_name, len(o.raw))
             nvar += 1
+    # --- the same container object, accepted once, then edited IN PLACE to be malformed and passed again (a validation
+    #     result remembered per list object must not survive the edit)
+    for op in ("rate", "predict_win", "predict_draw", "predict_rank"):
+        for label, edit in (("player[0][0]:=foreign rating", "foreign"), ("player[-1][-1]:=None", "none"), ("team[-1]:=[]", "emptyteam"),
+                            ("teams truncated to one team", "truncate"), ("team[0]:=tuple", "tuple")):
+            model, teams, kw = build(case, Ms)
+            first = observe(model, "predict_win", teams)  # accepted, and does not modify anything
+            if first.exc is not None:
+                continue
+            if edit == "foreign":
+                other = next(m for m in MODEL_NAMES if m != model_name)
+                teams[0][0] = Ms[other]().rating(teams[0][0].mu, teams[0][0].sigma)
+            elif edit == "none":
+                teams[-1][-1] = None
+            elif edit == "emptyteam":
+                del teams[-1][:]
+            elif edit == "truncate":
+                del teams[1:]
+            else:
+                teams[0] = tuple(teams[0])
+            o = observe(model, op, teams, **(kw if op == "rate" else {}))
+            _judge_rejected(ctx, payload, "in-place after accept: " + label, op, o, model_name, len(o.raw))
+            nvar += 1
     # --- selector-level variants on rate
     for label, sel_kw in V.selector_level():
         model, teams, kw = build(case, Ms)
@@ -220,6 +244,19 @@ def probe_base(ctx, payload):
                 ctx.violation("accepted/rejected", "base", payload, dict(variant=label, sel=sel, vals=repr(vals),
                                                                          exc=exc_detail(o.exc)), model_name, f"wellformed/{label}")
             ctx.case(dict(c=case["teams"], m=model_name, v=label, s=sel), True)
+    # the other selector spelled out as "not given": None or an empty list (the statement's "given (non-empty)")
+    for sel, other in (("ranks", "scores"), ("scores", "ranks")):
+        for label, empty in (("None", None), ("[]", [])):
+            model, teams, kw = build(case, Ms)
+            kw2 = dict(call)
+            kw2[sel] = list(range(V.n))
+            kw2[other] = empty
+            o = observe(model, "rate", teams, **kw2)
+            ctx.ev("accepted")
+            ctx.bucket("accepted_variants", f"{sel} given, {other}={label}")
+            if o.exc is not None:
+                ctx.violation("accepted/rejected", "base", payload, dict(variant=f"{sel} given, {other}={label}", exc=exc_detail(o.exc)),
+                              model_name, "wellformed/other-selector-empty")
     for op in ("predict_win", "predict_draw", "predict_rank"):
         model, teams, kw = build(case, Ms)
         o = observe(model, op, teams)
